@@ -29,7 +29,7 @@ fn good_args(id: usize) -> &'static str {
     match id {
         2 => " 5", 4 => " -3", 6 => " ON", 7 => " 1,2,3", 8 => " -4,5", 9 => " 'hi'", 11 => " #13abc", 13 => " 1.5", 14 => " -2.25E1", 18 => " 1",
         22 => " #HFF", 23 => " -1,\"x\",OFF", 24 => " 7", 26 => " -1,2,-3",
-        36 => " 1,2,3,4,5,6,7,8,9,10", 37 => " 1.5,2", 38 => " 3", 39 => " -220", 42 => " 18446744073709551615", 43 => " -113", 44 => " 9", 46 => " 3", 48 => " 5,-5",
+        36 => " 1,2,3,4,5,6,7,8,9,10", 37 => " 1.5,2", 38 => " 3", 39 => " -220", 42 => " 18446744073709551615", 43 => " -113", 44 => " 9", 46 => " 3", 49 => " 4", 50 => " 5,-5",
         _ => "",
     }
 }
@@ -375,8 +375,14 @@ const STREAMS: &[&str] = &[
     // newline inside a string / block, the real terminator possibly in the same read
     "DISP:TEXT 'x\ny'\nDISP:TEXT?\n", "DISP:TEXT 'q';TEXT 'x\ny';TEXT?\nLEV?\n", "LEV?;DATA:BLOC #15ab\ncd\nLEV?\n", "LEV?;DISP:TEXT 'a\nb'\nLEV?\n", "DATA:BLOC #14\n\n\n\n;BLOC?\n*RST\n", "*RST\n*RST\n*RST\n*RST\n",
     "SOUR:LEV 5;LEV?\nSOUR:LEV 5;LEV?\n", "MATH:MULT? 10000000,10000000\n", "SOUR:LEV 200;:LEV?\n", "MEAS:DOUB? 1E40\n",
+    // a faulty message with a newline in a payload: after the error run() resumes behind that newline and may hand back
+    // an incomplete rest (the one way left in which process() keeps part of what it gave to run())
+    // (the payload after the embedded newline reads like `HEADER '` so that the closing quote re-opens a string)
+    "DISP:TEXT 'x\nDISP:TEXT ' BAD\nLEV?\n'\nLEV?\n", "LEV?;DISP:TEXT 'x\nDISP:TEXT ' BAD\n'\nLEV?\n", "SOUR:LEV 3;LEV?;:DISP:TEXT \"x\nSOUR:LEV 4;:DISP:TEXT \" BAD\n\";LEV?\n",
+    // a query whose response is the terminator alone
+    "MEAS:NOTH?\nLEV?\n", "MEAS:NOTH?;NOTH?\n",
 ];
-/// 29 streams x N in {4,5,8,10,16,21,32,43,64} x every split into reads for streams of at most 12 bytes, and for longer ones:
+/// 34 streams x N in {4,5,8,10,16,21,32,43,64} x every split into reads for streams of at most 12 bytes, and for longer ones:
 /// single bytes, every 2-split, every fixed read size 2..=9, empty reads before / between / after, 40 sampled
 /// compositions; each also with 1 and 3 suspensions per transport call. Compared with the SAME stream delivered by one
 /// read per buffer fill (metamorphic: the reference is the real code itself), so that only the dependence on the
@@ -440,7 +446,7 @@ fn g_containers(seed: u64, emit: Emit) {
         if !p.contains(&b'\'') { msgs.push(cat(&[b"DISP:TEXT '", &p, b"';TEXT?\nLEV?\n"])); msgs.push(cat(&[b"*RST;MEAS:TRI? 1,'", &p, b"',ON;:LEV?\n"])); }
         if !p.contains(&b'"') { msgs.push(cat(&[b"DISP:TEXT \"", &p, b"\";TEXT?\nLEV?\n"])); }
         // the container in a RELATIVE unit behind a compound unit (the header path must survive a read boundary inside the payload)
-        if !p.contains(&b'\'') { msgs.push(cat(&[b"DISP:TEXT 'a';TEXT '", &p, b"';TEXT?\nLEV?\n"])); msgs.push(cat(&[b"SOUR:LEV 1;RANG 2;:DATA:BLOC #11z;BLOC #", l.len().to_string().as_bytes(), l.as_bytes(), &p, b";BLOC?\n"])); }
+        if !p.contains(&b'\'') { msgs.push(cat(&[b"DISP:TEXT 'a';*RST;TEXT '", &p, b"';TEXT?\nLEV?\n"])); msgs.push(cat(&[b"DISP:TEXT 'a';TEXT '", &p, b"';TEXT?\nLEV?\n"])); msgs.push(cat(&[b"SOUR:LEV 1;RANG 2;:DATA:BLOC #11z;BLOC #", l.len().to_string().as_bytes(), l.as_bytes(), &p, b";BLOC?\n"])); }
         msgs.push(cat(&[b"DATA:BLOC #", l.len().to_string().as_bytes(), l.as_bytes(), &p, b";BLOC?\nLEV?\n"]));
         // the same messages followed by a message that carries binary (non UTF-8) data in a block: a container is
         // closed by its own syntax, nothing behind it takes part in it
@@ -456,6 +462,18 @@ fn g_containers(seed: u64, emit: Emit) {
             }
         }
     } } } }
+    // faulty messages with a newline in a payload, after which run() hands back an incomplete rest (see STREAMS)
+    for m in ["DISP:TEXT 'x\nDISP:TEXT ' BAD\nLEV?\n'\nLEV?\n", "LEV?;DISP:TEXT 'x\nDISP:TEXT ' BAD\n'\nLEV?\n", "SOUR:LEV 3;LEV?;:DISP:TEXT \"x\nSOUR:LEV 4;:DISP:TEXT \" BAD\n\";LEV?\n",
+              "DATA:BLOC #19a\nDATA:BLOC # BAD\n11q;BLOC?\n"] {
+        let m = m.as_bytes().to_vec();
+        if !emit(run(m.clone())) { return; }
+        let mut cutsets: Vec<Vec<usize>> = (1..m.len()).map(|i| vec![i]).collect();
+        cutsets.push((1..=m.len()).collect()); cutsets.push(vec![]);
+        for a in 1..m.len() { for b in (a + 1)..m.len() { cutsets.push(vec![a, b]); } }
+        for cuts in cutsets {
+            if !emit(Scenario { mode: Mode::Process { n: 64, cuts, yields: 0, fail_at: None }, input: m.clone(), whole: true, base: None }) { return; }
+        }
+    }
 }
 
 // ---------------------------------------------------------------- C09
@@ -506,14 +524,14 @@ fn g_queue(seed: u64, emit0: Emit) {
 }
 
 // ---------------------------------------------------------------- C10
-/// 29 streams x N in {8,32} x four chunkings (one with empty reads), with a transport error injected at every index of the read / write /
+/// 34 streams x N in {8,32,64} x four chunkings (one with empty reads), with a transport error injected at every index of the read / write /
 /// flush call sequence (and none): the ordering write -> flush -> read, no write without a response, the injected
 /// error returned unchanged with no further transport call
 fn g_transport(_seed: u64, emit: Emit) {
     for s in STREAMS {
         let input = s.as_bytes().to_vec();
         let l = input.len();
-        for n in [8usize, 32] {
+        for n in [8usize, 32, 64] {
             for cuts in [vec![], (1..=l).collect::<Vec<usize>>(), (1..=l / 3).map(|i| i * 3).collect(), vec![0, 0, l / 2, l / 2, l, l, l]] {
                 let calls_upper = 3 * l + 12;
                 for fail_at in (0..calls_upper).map(Some).chain([None]) {
@@ -531,9 +549,10 @@ const LEX: &[&str] = &[
     "<HEX> #HfF< >\n", "<WIDE> -1< >,< >#B11< >,< >#Q17< >\n",
     "<MATH:MULTIPLYFLOAT?> 1.5< >,< >2< >\n", "<INP2:DIG_IO:TST> 3< >;<:INPUT2:DIG_IO:TEST> 4< >\n", "<MEAS:NORM< >;<:MEASURE:NORMALIZE< >\n", "<TRIG:IN_A< >;<INP< >;<:TRIGGER:INPUT< >\n",
     "<TEMP:VAL?< >;<:TEMPL:NAME?< >;<:TEMPERATURE:VALUE?< >\n", "<CONF:TEN> 1,2,3,4,5,6,7,8,9< >,< >10< >\n",
+    "<CAL:TEMPO> 1< >;<TEMPERATUREOFFSET> 2< >;<:calibration:temperatureoffset> 3< >\n", "<MEAS:NOTH?< >;<NOTHING?< >\n",
 ];
 const WS: &[&[u8]] = &[b" ", b"\t", b"\r", b" \x0b\x0c ", b"\x00\x01\x1f"];
-/// 19 message templates with 3..=11 white-space slots each (before a unit, between header and parameters, around
+/// 21 message templates with 3..=11 white-space slots each (before a unit, between header and parameters, around
 /// commas and header colons, before ';' and before the terminator): every subset of the slots filled, for each of 5
 /// white-space strings covering bytes 0-9 and 11-32; every header also in lower case and in long form; LF and CR LF.
 /// Compared with the un-spaced upper-case short-form message (metamorphic: the reference is the real code itself).
@@ -623,11 +642,11 @@ fn g_finality(seed: u64, emit: Emit) {
 
 pub const FAMILIES: &[Family] = &[
     Family { name: "headers", props: &["C01"], kinds: &["handler", "error", "panic", "hang"], gen: g_headers,
-        bound: "interface T2 (49 declarations + 3 requested standard commands): every allowed spelling x 3 letter cases x relative/absolute; per level every cut between short and long form, two extensions, level dropped / doubled / appended; query mark toggled; 8 undeclared standard headers" },
+        bound: "interface T2 (51 declarations + 3 requested standard commands): every allowed spelling x 3 letter cases x relative/absolute; per level every cut between short and long form, two extensions, level dropped / doubled / appended; query mark toggled; 8 undeclared standard headers" },
     Family { name: "compound", props: &["C02"], kinds: &["handler", "flush", "error", "panic", "hang"], gen: g_compound,
         bound: "every message of 1..=3 units from a pool of 30 (27 930 messages), the 1- and 2-unit ones also after 5 different preceding messages and with a trailing ';'; thorough tier: also every message of 4 units from 14 of them" },
     Family { name: "args", props: &["C03"], kinds: &["args", "handler", "error", "panic", "hang"], gen: g_args,
-        bound: "4 single-integer handlers x 278 literals; 6 multi-parameter patterns x 278 x 5; 22 boolean, 14 string, 12 block, 33 real literals; parameter counts 0..=12 for all 52 declarations" },
+        bound: "4 single-integer handlers x 278 literals; 6 multi-parameter patterns x 278 x 5; 22 boolean, 14 string, 12 block, 33 real literals; parameter counts 0..=12 for all 54 declarations" },
     Family { name: "responses", props: &["C04"], kinds: &["response", "flush", "writer", "panic", "hang"], gen: g_responses,
         bound: "31 queries alone and in compound messages; ~900 integers (powers of 10 and 2 and neighbours, zero digit groups, type bounds) echoed as u64 / i64 / i8 / u8; strings / blocks of every 1..=3 element combination of {a \" ' ; , e-acute SP}; payload lengths 0..=1000; 39 real literals echoed as f32 and f64, 5 special-value sets; logging writer vs std Vec writer vs heapless writers of 64 and 1024 bytes" },
     Family { name: "robust", props: &["C05"], kinds: &["panic", "hang"], gen: g_robust,
@@ -635,15 +654,15 @@ pub const FAMILIES: &[Family] = &[
     Family { name: "faulty", props: &["C06"], kinds: &["handler", "error", "panic", "hang"], gen: g_faulty,
         bound: "59 kinds of faulty unit (9 of them not valid UTF-8) x 5 positions in a message x 7 surrounding good messages; run on one buffer and process (N = 64) with reads of 1, 5 and all bytes" },
     Family { name: "chunking", props: &["C07"], kinds: &["handler", "error", "response", "transport", "args", "panic", "hang"], gen: g_chunking,
-        bound: "29 streams x N in {4,5,8,10,16,21,32,43,64} x all compositions (length <= 12; thorough tier: <= 16) or single bytes / all 2-splits / fixed sizes 2..=9 / empty reads / 40 sampled compositions; 0, 1, 3 suspensions per transport call; reference = same stream in maximal reads (real code); and, for streams of fitting messages, reference = the real run one message at a time" },
+        bound: "34 streams x N in {4,5,8,10,16,21,32,43,64} x all compositions (length <= 12; thorough tier: <= 16) or single bytes / all 2-splits / fixed sizes 2..=9 / empty reads / 40 sampled compositions; 0, 1, 3 suspensions per transport call; reference = same stream in maximal reads (real code); and, for streams of fitting messages, reference = the real run one message at a time" },
     Family { name: "containers", props: &["C08"], kinds: &["handler", "args", "error", "rest", "panic", "hang"], gen: g_containers,
-        bound: "payloads of 1..=3 (thorough tier: 1..=4) bytes from 12 special bytes in strings of both quote kinds and blocks, 6 message shapes (incl. a relative unit behind a compound unit); run whole and process (N = 64) with a read boundary at every position; reference = one run over the whole stream" },
+        bound: "payloads of 1..=3 (thorough tier: 1..=4) bytes from 12 special bytes in strings of both quote kinds and blocks, 7 message shapes (incl. a relative unit behind a compound unit and behind a common command); run whole and process (N = 64) with a read boundary at every position; reference = one run over the whole stream; 4 faulty messages after which run() hands back an incomplete rest, every 1- and 2-split" },
     Family { name: "queue", props: &["C09"], kinds: &["queue", "error", "response", "handler", "panic", "hang"], gen: g_queue,
         bound: "queue of capacity 3: every sequence of 1..=4 operations from a pool of 15 (54 240); every sequence of 1..=9 operations from {undefined header, handler error, ERRor?, COUNt?} followed by a drain (349 524); every error number -420..=60 raised and read back; each on the logging device and on devices that own StaticErrorQueue<N> directly (N = 3, and 1, 2, 5 in turn); thorough tier: sequences of up to 10 operations" },
     Family { name: "transport", props: &["C10"], kinds: &["transport", "panic", "hang"], gen: g_transport,
-        bound: "29 streams x N in {8,32} x 4 chunkings (one with empty reads) x a transport error at every call index (and none)" },
+        bound: "34 streams x N in {8,32,64} x 4 chunkings (one with empty reads) x a transport error at every call index (and none)" },
     Family { name: "lexical", props: &["C11"], kinds: &["handler", "args", "error", "response", "rest", "panic", "hang"], gen: g_lexical,
-        bound: "19 templates with 3..=11 white-space slots: every subset of slots x 5 white-space strings (bytes 0-9, 11-32); lower case, long forms, CR LF on every fifth; reference = the un-spaced message (real code); every spelling of every declaration in 4 letter cases against its long upper-case spelling" },
+        bound: "21 templates with 3..=11 white-space slots: every subset of slots x 5 white-space strings (bytes 0-9, 11-32); lower case, long forms, CR LF on every fifth; reference = the un-spaced message (real code); every spelling of every declaration in 4 letter cases against its long upper-case spelling" },
     Family { name: "finality", props: &["C12"], kinds: &["rest", "error", "handler", "panic", "hang"], gen: g_finality,
         bound: "51 unit texts cut at every byte position, the complete ones continued by 20 tails; thorough tier: every tail and every pair of tails behind every cut" },
 ];
